@@ -3625,14 +3625,17 @@ class Fused(Blockwise):
         nested_aliases = []
         for _expr in self.exprs:
             if isinstance(_expr, Fused):
-                subgraph, name = _expr._task(index)[1:3]
+                # A single-partition group broadcast into this group only has
+                # partition 0
+                nested_index = 0 if self._broadcast_dep(_expr) else index
+                subgraph, name = _expr._task(nested_index)[1:3]
                 nested_deps = _expr.dependencies()
                 for key, task in subgraph.items():
                     if _is_fused_placeholder(task):
                         nested_aliases.append((key, nested_deps[int(task[1:])]))
                     else:
                         graph[key] = task
-                graph[(name, index)] = name
+                graph[(name, nested_index)] = name
             elif self._broadcast_dep(_expr):
                 # When _expr is being broadcasted, we only
                 # want to define a fused task for index 0
